@@ -131,7 +131,7 @@ def SSt.report (s : SSt) (cls props kind detail : String) : SSt :=
   let c := match s.cur with | some c => c.raw | none => ""
   let msg := s!"MISMATCH class={cls} props={props} kind={kind} line={s.lineNo} case=[{c}] {detail}"
   let s := if cls == "model" then { s with nModel := s.nModel + 1 } else { s with nSpec := s.nSpec + 1 }
-  if s.reports.size < 40 then { s with reports := s.reports.push msg } else s
+  if keepReport s.reports s!"class={cls} props={props} kind={kind} " then { s with reports := s.reports.push msg } else s
 
 def between (s : String) (a b : String) : String :=
   match s.splitOn a with
